@@ -146,7 +146,8 @@ class BatchSage:
         marginal_prediction = _get_mean_model_output(all_predictions)
         for n, (x_i, y_i) in tqdm(enumerate(zip(x_data, y_data), start=1), total=n_data,
                                   disable=not verbose):
-            permutation_chain = np.random.permutation(self.feature_names)
+            permutation_chain = [self.feature_names[i]
+                                 for i in np.random.permutation(len(self.feature_names))]
             loss_previous = self._loss_function(y_i, marginal_prediction)
             features_not_in_s = set(self.feature_names)
             for feature in permutation_chain:
@@ -196,7 +197,8 @@ class BatchSage:
         marginal_prediction = _get_mean_model_output(all_predictions)
         for n, (x_i, y_i) in tqdm(enumerate(zip(x_data, y_data), start=1), total=n_data,
                                   disable=not verbose):
-            permutation_chain = np.random.permutation(self.feature_names)
+            permutation_chain = [self.feature_names[i]
+                                 for i in np.random.permutation(len(self.feature_names))]
             x_s = {}
             loss_previous = self._loss_function(y_i, marginal_prediction)
             for feature in permutation_chain:
